@@ -207,7 +207,14 @@ func genHedgeCase(r *Rng) HCase {
 // hedge policies inside random stacks (innermost policy), complete logs compared with Model/Exec.v
 func driveC09x(t *testing.T) {
 	pf := execProfile{name: "C09x", kinds: []string{"Retry", "Retry", "Timeout", "Fallback", "Fallback", "Breaker", "Bulkhead", "Cache"}, maxDepth: 3, extPct: 20, coopPct: 50, maxReqs: 2, withExec: true, hedgePct: 100}
-	driveExec(t, "C09x", pf, 300, 9000, "stacks of 0-3 retry / timeout / fallback / breaker / bulkhead / cache policies around a hedge policy (1-3 hedges, delay 1-5 us, cancel conditions on results and errors), scripts of 3-11 attempts with durations 0-9 us (pairwise distinct residues), cooperative attempts returning 1-5 ns after their cancellation, external cancellation or deadline in a fifth of the requests. Non-trivial = at least one hedge started. "+execRule, nil)
+	driveExec(t, "C09x", pf, 300, 9000, "stacks of 0-3 retry / timeout / fallback / breaker / bulkhead / cache policies around a hedge policy (1-3 hedges, delay 1-5 us, cancel conditions on results and errors), scripts of 3-11 attempts with durations 0-9 us (pairwise distinct residues), cooperative attempts returning 1-5 ns after their cancellation, external cancellation or deadline in a fifth of the requests; plus retries around a hedge that wins with a handled failure, cancelled in the middle of the retry delay that follows. Non-trivial = at least one hedge started. "+execRule,
+		func(w *CaseWriter, rng *Rng, add func(InstD, []ReqD, string)) {
+			n := 25
+			if envTier() == "thorough" {
+				n = 700
+			}
+			hedgeWinsThenCancelInDelay(rng, n, add)
+		})
 }
 
 func TestDrive_C09(t *testing.T) {
